@@ -2,15 +2,31 @@
 (* Model-checking instances of ConcStreamSuite.                             *)
 EXTENDS ConcStreamSuite
 
-CONSTANTS Scripts, FaultChoices(_)
+CONSTANTS Scripts, FaultChoices(_), RouteChoices(_)
 
 S(tests, raises) == [tests |-> tests, raises |-> raises]
+
+\* route codes handed out by make_tests: distinct ones, or shared by two / three workers (a string, or None);
+\* a worker whose code is None emits no event with a route code of its own (StreamToQueue cannot prefix None)
+Codes == <<"a", "b", "c", "d">>
+Routed(s, rs) == [w \in DOMAIN s |-> [tests |-> s[w].tests, raises |-> s[w].raises, route |-> rs[w]]]
+AllowedRoutes(s, rs) == \A w \in DOMAIN s : rs[w] = "none" => \A i \in DOMAIN s[w].tests : s[w].tests[i] # "raw"
+DistinctRoutes(s) == {[w \in DOMAIN s |-> Codes[w]]}
+SharedRoutes(s) == {rs \in {[w \in DOMAIN s |-> "a"], [w \in DOMAIN s |-> "none"],
+                            [w \in DOMAIN s |-> IF w = Len(s) THEN "b" ELSE "none"],
+                            [w \in DOMAIN s |-> IF w = 1 THEN "b" ELSE "a"]} : AllowedRoutes(s, rs)}
+SharedRoutes3(s) == {rs \in {[w \in DOMAIN s |-> "a"], [w \in DOMAIN s |-> IF w = Len(s) THEN "b" ELSE "none"]} : AllowedRoutes(s, rs)}
+SimRoutes(s) == DistinctRoutes(s) \cup SharedRoutes(s)
 
 \* quick: 2 workers x <= 1 test (2..4 queue messages each), one fault anywhere
 ScriptQ == {S(<<>>, "no"), S(<<"raw">>, "no"), S(<<"ok">>, "no")}
 ScriptsQ == [1..2 -> ScriptQ]
 \* broken runners (run() raises), 1..2 workers
 ScriptsB == { <<S(<<"raw">>, "base"), S(<<>>, "no")>>, <<S(<<>>, "exc"), S(<<"er">>, "no")>>, <<S(<<"raw">>, "exc")>>, <<S(<<>>, "exc"), S(<<>>, "exc")>> }
+\* workers sharing a route code
+ScriptsSh2 == [1..2 -> {S(<<>>, "no"), S(<<"ok">>, "no")}] \cup { <<S(<<"raw">>, "no"), S(<<>>, "no")>> }
+ScriptsSh3 == { <<S(<<>>, "no"), S(<<>>, "no"), S(<<"ok">>, "no")>> }
+FaultsSh3(s) == {<<NoFault, NoFault, NoFault>>, <<NoFault, 1, NoFault>>, <<NoFault, NoFault, 0>>}
 \* thorough
 ScriptT == {S(<<>>, "no"), S(<<"raw">>, "no")}
 E == S(<<>>, "no")
@@ -32,7 +48,8 @@ Faults4(s) == {<<NoFault, NoFault, NoFault>>}
 AnyFaults(s) == {<<k, j, n>> : k \in {NoFault} \cup (0..Len(s)), j \in {NoFault, 0, 1, 3}, n \in {NoFault, 0, 1, 2, 4}}
 SomeFaults(s) == {<<k, j, n>> : k \in {NoFault} \cup (0..Len(s)), j \in {NoFault, 1}, n \in {NoFault, 0, 2}}
 
-MCInit == \E s \in Scripts : \E f \in FaultChoices(s) : InitWith(s, f[1], f[2], f[3])
+MCInit == \E s \in Scripts : \E rs \in RouteChoices(s) : \E f \in FaultChoices(s) :
+              InitWith(Routed(s, rs), f[1], f[2], f[3])
 Spec == MCInit /\ [][Next]_vars
 NextNoDone == MainStep \/ \E w \in Workers : WorkerStep(w)
 SimSpec == MCInit /\ [][NextNoDone]_vars
